@@ -63,7 +63,9 @@ CLAIM = dict(
     "precondition_exact_for_translation) and tied with scipy.optimize.minimize replaced by a recorder. Typed evaluation (results wrapped in the output / "
     "input point type, single points and point sets) is modelled (wrapPoint2, typedCall2, typedInverse2; wrap_center_half, "
     "typed_center_roundtrip_translation, wrong_wrap_differs), tied exactly incl. the class of the result, and searched on the "
-    "implementation (round trips, point set vs single point).",
+    "implementation (round trips, point set vs single point). Parameter-setting histories on one "
+    "object (partial set_parameters, long vectors, isometry / short vectors) are modelled (pstep, prun; vector_forgets_history, "
+    "isometry_vector_preserves_distances, partial_set_keeps), tied at 1e-11 and searched (re-used object = fresh object).",
     technique="Lean 4 proof (ring identities by induction over the factor list; floor/trunc lemmas over Q) + G1 tabulation + "
     "differential correspondence + property oracle",
 )
@@ -499,6 +501,105 @@ def corr_cache_ops(ctx, d, rnd_name):
         impl.append(res)
     return ctx.correspond("TransformationCorrection: applications interleaved with set_parameters on one object (version-keyed cache), exact",
                           lines, impl, driver="C10")
+
+
+def rand_phist(rng, dim):
+    """parameter-setting history on one object: partial / full set_parameters, long vectors, then possibly an isometry (short) vector"""
+    na = 1 if dim == 2 else 3
+    ops = []
+    for _ in range(rng.randint(1, 4)):
+        if rng.random() < 0.5:
+            ops.append(("S", [dy(rng, -4, 4, 4) for _ in range(dim)] if rng.random() < 0.7 else None,
+                        Fr(rng.choice([2, 3, 5, 1]), rng.choice([1, 2, 4])) if rng.random() < 0.7 else None,
+                        [rfrac(rng, lo=-2, hi=2) for _ in range(na)] if rng.random() < 0.6 else None))
+        else:
+            ops.append(("V", False, [dy(rng, -4, 4, 4) for _ in range(dim)], Fr(rng.choice([2, 3, 5]), rng.choice([1, 2, 4])),
+                        [rfrac(rng, lo=-2, hi=2) for _ in range(na)]))
+    if rng.random() < 0.7:
+        ops.append(("V", True, [dy(rng, -4, 4, 4) for _ in range(dim)], Fr(1), [rfrac(rng, lo=-2, hi=2) for _ in range(na)]))
+    return ops
+
+
+def apply_phist(d, T, ops):
+    for op in ops:
+        if op[0] == "S":
+            _, t, sg, rot = op
+            T.set_parameters(None if t is None else np.array([float(x) for x in t]), None if sg is None else float(sg),
+                             None if rot is None else np.array([angle(a) for a in rot]))
+        else:
+            _, iso, t, sg, rot = op
+            T.isometry = iso
+            vec = [float(x) for x in t] + ([] if iso else [float(sg)]) + [angle(a) for a in rot]
+            T.set_parameters_as_vector(np.array(vec))
+
+
+def corr_param_history(ctx, d):
+    """parameter-setting histories on ONE AffineTransformation(2): final translation, scaling, rotation and the map vs the model"""
+    rng = ctx.rng
+    lines, vals = [], []
+    for i in range(ctx.pick(20, 200)):
+        ops = rand_phist(rng, 2)
+        pts = [[dy(rng, -6, 6, 4), dy(rng, -6, 6, 4)] for _ in range(rng.randint(1, 4))]
+        toks = []
+        for op in ops:
+            if op[0] == "S":
+                _, t, sg, rot = op
+                toks.append("S " + ("1 " + fmt(t[0]) + " " + fmt(t[1]) if t else "0") + " " + ("1 " + fmt(sg) if sg is not None else "0") + " "
+                            + ("1 " + fmt(rot[0]) if rot else "0"))
+            else:
+                _, iso, t, sg, rot = op
+                toks.append(f"V {int(iso)} {fmt(t[0])} {fmt(t[1])} {fmt(sg)} {fmt(rot[0])}")
+        lines.append(f"phist {len(ops)} " + " ".join(toks) + f" {len(pts)} " + " ".join(fmt(x) for p in pts for x in p))
+
+        def run():
+            T = d.AffineTransformation(2)
+            apply_phist(d, T, ops)
+            y = T.call_array(np.array([[float(x) for x in p] for p in pts]))
+            return (list(np.asarray(T.translation, float).ravel()) + [float(T.scaling)] + list(np.asarray(T.rotation, float).ravel())
+                    + list(np.asarray(y, float).ravel()))
+
+        vals.append(call(run))
+    return correspond_tol(ctx, "AffineTransformation: parameter-setting histories on one object (set_parameters / vectors / isometry), 1e-11",
+                          lines, vals, tol=1e-11)
+
+
+def check_phist_case(ctx, d, case):
+    """a re-used transformation object must end up like a FRESH object given the last complete setting; isometry => distances kept"""
+    dim = case["dim"]
+    ops = [tuple(o) for o in case["ops"]]
+    last = ops[-1]
+    if last[0] != "V":
+        return []
+    conv = lambda o: (o[0], o[1], [Fr(x) for x in o[2]], Fr(o[3]), [Fr(x) for x in o[4]])  # noqa: E731
+    ops = [conv(o) if o[0] == "V" else (o[0], None if o[1] is None else [Fr(x) for x in o[1]], None if o[2] is None else Fr(o[2]),
+                                         None if o[3] is None else [Fr(x) for x in o[3]]) for o in ops]
+    x = np.array(case["pts"], float)
+
+    def run():
+        T = d.AffineTransformation(dim)
+        apply_phist(d, T, ops)
+        F = d.AffineTransformation(dim)
+        apply_phist(d, F, ops[-1:])
+        return np.asarray(T.call_array(x), float), np.asarray(F.call_array(x), float), float(T.scaling), np.asarray(T.inverse_array(T.call_array(x)), float)
+
+    r = call(run)
+    if isinstance(r, Raised):
+        return [(f"C09:AffineTransformation({dim}):parameter-history:raises", f"{r}")]
+    yT, yF, sc, back = r
+    bad = []
+    iso = ops[-1][1]
+    scale = 1 + float(np.abs(yF).max())
+    if float(np.abs(yT - yF).max()) > 1e-10 * scale:
+        bad.append((f"C09:AffineTransformation({dim}):reused-object≠fresh(after {'isometry ' if iso else ''}vector)",
+                    f"after {len(ops) - 1} earlier setting(s) the {'short (isometry)' if iso else 'long'} parameter vector gives a map that differs from a "
+                    f"fresh object's by {float(np.abs(yT - yF).max()):.3g} (scaling {sc}, fresh {1.0 if iso else float(ops[-1][3])})"))
+    if iso and len(x) >= 2:
+        dx, dyv = np.linalg.norm(x[0] - x[1]), np.linalg.norm(yT[0] - yT[1])
+        if abs(dx - dyv) > 1e-10 * scale:
+            bad.append((f"C09:AffineTransformation({dim}):isometry-does-not-preserve-distances", f"|x0-x1| = {dx}, |T x0 - T x1| = {dyv}"))
+    if float(np.abs(back - x).max()) > 1e-9 * scale * max(sc, 1 / sc if sc else 1):
+        bad.append((f"C09:AffineTransformation({dim}):inverse∘call≠id(after history)", f"{float(np.abs(back - x).max()):.3g}"))
+    return bad
 
 
 def corr_fit_fold(ctx, d):
@@ -1309,6 +1410,16 @@ def oracle(ctx, d):
                     pts=[[rng.randint(-6, 8), rng.randint(-6, 8)] for _ in range(rng.randint(1, 5))])
         ctx.count(("typed-points", mode, kind, i))
         report(ctx, check_typed_case(ctx, d, case), case)
+    for i in range(ctx.pick(30, 300)):
+        dim = 2 + (i % 2)
+        ops = rand_phist(rng, dim)
+        if ops[-1][0] != "V":
+            ops.append(("V", True, [dy(rng, -4, 4, 4) for _ in range(dim)], Fr(1), [rfrac(rng, lo=-2, hi=2) for _ in range(1 if dim == 2 else 3)]))
+        js = lambda o: [o[0], o[1], [str(x) for x in o[2]], str(o[3]), [str(x) for x in o[4]]] if o[0] == "V" else [  # noqa: E731
+            o[0], None if o[1] is None else [str(x) for x in o[1]], None if o[2] is None else str(o[2]), None if o[3] is None else [str(x) for x in o[3]]]
+        case = dict(phist=True, dim=dim, ops=[js(o) for o in ops], pts=[[rng.uniform(-10, 10) for _ in range(dim)] for _ in range(rng.randint(2, 4))])
+        ctx.count(("param-history", dim, len(ops), i))
+        report(ctx, check_phist_case(ctx, d, case), case)
     iso_lines, iso_vals = [], []
     for i in range(ctx.pick(8, 60)):
         shape = [rng.randint(3, 6), rng.randint(3, 6)]
@@ -1355,7 +1466,9 @@ def replay(data):
     if case is None:
         print(json.dumps(data, indent=1))
         return 0
-    if case.get("typed"):
+    if case.get("phist"):
+        bad = check_phist_case(_C(), d, case)
+    elif case.get("typed"):
         bad = check_typed_case(_C(), d, case)
     elif case.get("fit"):
         bad = check_fit_case(_C(), d, case)
@@ -1383,7 +1496,7 @@ def run(ctx):
         data = json.loads(f.read_text())
         case = data.get("replay", {}).get("case", data.get("case"))
         if case:
-            fn = (check_typed_case if case.get("typed") else check_fit_case if case.get("fit") else check_rotcorr_case if "rotations" in case else check_gp_case if str(case.get("kind", "")).startswith("gp-")
+            fn = (check_phist_case if case.get("phist") else check_typed_case if case.get("typed") else check_fit_case if case.get("fit") else check_rotcorr_case if "rotations" in case else check_gp_case if str(case.get("kind", "")).startswith("gp-")
                   else check_warp_case if "kind" in case else check_affine_case)
             report(ctx, fn(ctx, d, case), case)
     # (1) G1: rounding of the point constructors
@@ -1408,6 +1521,7 @@ def run(ctx):
     corr_fit_fold(ctx, d)
     corr_typed_points(ctx, d, rnd_name)
     corr_cache_ops(ctx, d, rnd_name)
+    corr_param_history(ctx, d)
     # (4) oracle
     oracle(ctx, d)
 
